@@ -65,6 +65,8 @@ class IntFlow:
         key = vkey(v)
         if key.startswith("residual("):
             return set()
+        if key.startswith("frombool("):
+            return {0, 1}
         if "ExitStatus::code" in key:
             # Option::unwrap_or(code(), k): also the default k
             m = re.match(r"^std::option::Option::<T>::unwrap_or\((.*),(-?\d+)\)$", key)
